@@ -611,6 +611,8 @@ fn c18_multi(stats: &mut Stats) -> Vec<Failure> {
             vec!["--glob", "!vendor/**", "--", "."],
             // the traversal of `src` meets a symbolic link to the second file
             vec!["a.lua", "src"],
+            // files named explicitly are checked whatever the glob list says (no --respect-ignores)
+            vec!["--glob", "!**/a.lua", "--", "a.lua", "../shared/a.lua"],
         ] {
             for fmt in ["Unified", "Json", "Summary", "Standard"] {
                 let mut t = Tree::default();
@@ -781,6 +783,8 @@ pub enum Kind {
     Crlf,
     /// formatted except that the final line terminator is missing
     NoEol,
+    /// white space only: a healthy file whose formatted text is empty
+    Blank,
     /// needs formatting, and its formatted text has exactly the same length (only the quotes change)
     SameLen,
     /// mode 0444 and already formatted: nothing has to be written, so nothing fails
@@ -805,6 +809,7 @@ impl Kind {
             Kind::Unparseable2 => 'Q',
             Kind::Crlf => 'L',
             Kind::NoEol => 'N',
+            Kind::Blank => 'B',
             Kind::SameLen => 'S',
             Kind::ReadOnlyFormatted => 'Z',
             Kind::ReadOnly => 'R',
@@ -814,6 +819,7 @@ impl Kind {
     pub fn bytes(self, i: usize) -> Vec<u8> {
         match self {
             Kind::Formatted | Kind::NotDir | Kind::ReadOnlyFormatted => format!("local x{} = 1\n", i).into_bytes(),
+            Kind::Blank => b"\n  \n\n".to_vec(),
             Kind::SameLen => format!("local g{} = 'hi'\n", i).into_bytes(),
             Kind::Unformatted | Kind::Immutable | Kind::ReadOnly | Kind::Unreadable => format!("local   x{}  =  2\n", i).into_bytes(),
             Kind::Unparseable => format!("local x{} = = 1\n", i).into_bytes(),
@@ -832,7 +838,7 @@ impl Kind {
         }
     }
     pub fn fails(self) -> bool {
-        !matches!(self, Kind::Formatted | Kind::Unformatted | Kind::Crlf | Kind::NoEol | Kind::SameLen | Kind::ReadOnlyFormatted)
+        !matches!(self, Kind::Formatted | Kind::Unformatted | Kind::Crlf | Kind::NoEol | Kind::SameLen | Kind::ReadOnlyFormatted | Kind::Blank)
     }
 }
 
@@ -889,7 +895,7 @@ fn layout_paths(kinds: &[Kind], layout: &str) -> Vec<String> {
 }
 
 pub fn c13(thorough: bool, stats: &mut Stats) -> Vec<Failure> {
-    let alpha = [Kind::Formatted, Kind::Unformatted, Kind::Unparseable, Kind::InvalidUtf8, Kind::Missing, Kind::Crlf, Kind::NoEol, Kind::NotDir];
+    let alpha = [Kind::Formatted, Kind::Unformatted, Kind::Unparseable, Kind::InvalidUtf8, Kind::Missing, Kind::Crlf, Kind::NoEol, Kind::NotDir, Kind::Blank];
     let mut scs = vec![];
     for ks in multisets(&alpha, if thorough { 4 } else { 3 }, false) {
         for layout in ["flat", "dir", "subdir", "dir+txt", "linkdir", "subdir+overlap"] {
@@ -960,6 +966,7 @@ pub fn c13(thorough: bool, stats: &mut Stats) -> Vec<Failure> {
     // what is logged)
     let opts: Vec<(&str, Vec<&str>, Vec<(&str, &str)>)> = vec![
         ("verify-reject", vec!["--verify"], vec![("STYLUA_VERIF_FAULTS", "1")]),
+        ("crash", vec![], vec![("STYLUA_VERIF_FAULTS", "1")]),
         ("range-start-only", vec!["--range-start", "1000"], vec![]),
         ("range-end-only", vec!["--range-end", "0"], vec![]),
         ("range-start-0", vec!["--range-start", "0"], vec![]),
@@ -971,9 +978,12 @@ pub fn c13(thorough: bool, stats: &mut Stats) -> Vec<Failure> {
         ("log=debug", vec![], vec![("STYLUA_LOG", "debug")]),
         ("log=stylua=off", vec![], vec![("STYLUA_LOG", "stylua=off")]),
     ];
-    for ks in multisets(&[Kind::Formatted, Kind::Unformatted, Kind::Unparseable, Kind::VerifyFail, Kind::Missing], 2, false) {
+    for ks in multisets(&[Kind::Formatted, Kind::Unformatted, Kind::Unparseable, Kind::VerifyFail, Kind::Missing, Kind::Crash], 2, false) {
         for (oname, oargs, oenv) in &opts {
             if ks.contains(&Kind::VerifyFail) != (*oname == "verify-reject") {
+                continue;
+            }
+            if ks.contains(&Kind::Crash) != (*oname == "crash") {
                 continue;
             }
             for fmt in ["Standard", "Unified", "Json", "Summary"] {
@@ -1043,7 +1053,7 @@ pub fn c13(thorough: bool, stats: &mut Stats) -> Vec<Failure> {
             let changed: Vec<&String> = o.after.keys().filter(|k| o.before.get(*k) != o.after.get(*k)).chain(o.before.keys().filter(|k| !o.after.contains_key(*k))).collect();
             f.push(("check-wrote".into(), format!("--check modified / created / touched {:?}", changed)));
         }
-        let any_fail = kinds.iter().any(|k| matches!(k, 'P' | 'I' | 'M' | 'D' | 'V'));
+        let any_fail = kinds.iter().any(|k| matches!(k, 'P' | 'I' | 'M' | 'D' | 'V' | 'C'));
         let after_write = s.desc.ends_with("history=write-then-check");
         let opt = s.desc.split("opt=").nth(1).unwrap_or("");
         // without --allow-hidden nothing below the hidden directory is selected
@@ -1066,11 +1076,11 @@ pub fn c13(thorough: bool, stats: &mut Stats) -> Vec<Failure> {
                 })
                 .count()
         } else {
-            kinds.iter().filter(|k| matches!(**k, 'U' | 'L' | 'N')).count()
+            kinds.iter().filter(|k| matches!(**k, 'U' | 'L' | 'N' | 'B')).count()
         };
         let want = if any_fail { 2 } else if n_unf > 0 { 1 } else { 0 };
         if o.code != want {
-            f.push(("exit-status".into(), format!("exit status {} but expected {} ({} failing, {} differing)", o.code, want, kinds.iter().filter(|k| matches!(k, 'P' | 'I' | 'M' | 'D' | 'V')).count(), n_unf)));
+            f.push(("exit-status".into(), format!("exit status {} but expected {} ({} failing, {} differing)", o.code, want, kinds.iter().filter(|k| matches!(k, 'P' | 'I' | 'M' | 'D' | 'V' | 'C')).count(), n_unf)));
         }
         let stdout = String::from_utf8_lossy(&o.stdout).to_string();
         let reported: usize = match fmt {
@@ -1118,7 +1128,7 @@ pub fn unprivileged_supported() -> bool {
 }
 
 pub fn c14(thorough: bool, stats: &mut Stats) -> Vec<Failure> {
-    let mut alpha = vec![Kind::Unformatted, Kind::Formatted, Kind::Unparseable, Kind::VerifyFail, Kind::Crash, Kind::InvalidUtf8, Kind::Immutable, Kind::Unparseable2, Kind::SameLen, Kind::ReadOnlyFormatted];
+    let mut alpha = vec![Kind::Unformatted, Kind::Formatted, Kind::Unparseable, Kind::VerifyFail, Kind::Crash, Kind::InvalidUtf8, Kind::Immutable, Kind::Unparseable2, Kind::SameLen, Kind::ReadOnlyFormatted, Kind::Blank];
     if !immutable_supported() {
         // without a working immutable attribute the "unwritable" kind cannot be produced: leave it out and say so
         alpha.retain(|k| *k != Kind::Immutable);
@@ -1246,7 +1256,7 @@ pub fn c14(thorough: bool, stats: &mut Stats) -> Vec<Failure> {
             }
             return f;
         }
-        let any_fail = kinds.iter().any(|k| !matches!(k, 'U' | 'F' | 'S' | 'Z'));
+        let any_fail = kinds.iter().any(|k| !matches!(k, 'U' | 'F' | 'S' | 'Z' | 'B'));
         let want = if any_fail { 2 } else { 0 };
         if o.code != want {
             f.push(("exit-status".into(), format!("exit status {} but expected {}", o.code, want)));
@@ -1259,7 +1269,7 @@ pub fn c14(thorough: bool, stats: &mut Stats) -> Vec<Failure> {
                 continue;
             };
             let before = &o.before[p];
-            if k == 'U' || k == 'S' {
+            if k == 'U' || k == 'S' || k == 'B' {
                 let want = lib_format(&String::from_utf8_lossy(b), &Cfg::default(), 120).unwrap();
                 if after.0 != want.as_bytes() {
                     f.push(("not-formatted".into(), format!("{} (a healthy unformatted file) is {:?} after the run, expected {:?}", p, String::from_utf8_lossy(&after.0), want)));
@@ -1590,7 +1600,7 @@ pub fn c15_sections(stats: &mut Stats) -> Vec<Failure> {
 }
 
 // ======================================================================================================== C16
-pub const C16_FILES: &[&str] = &["a.lua", "b.luau", "c.txt", ".h.lua", "s/d.lua", "s/.g/e.lua", "v/v.lua", "s/t/u.lua", "s/a.lua"];
+pub const C16_FILES: &[&str] = &["a.lua", "b.luau", "c.txt", ".h.lua", "s/d.lua", "s/.g/e.lua", "v/v.lua", "s/t/u.lua", "s/a.lua", "s/c.txt"];
 /// symbolic links in the tree: a link to a file (selected like a file, but it IS its target: processed once), and a link to a
 /// directory (not followed by the traversal; used for the spelling `lt/../a.lua`, which the OS resolves to s/a.lua)
 pub const C16_LINKS: &[(&str, &str)] = &[("s/ln.lua", "../a.lua"), ("lt", "s/t")];
@@ -2022,6 +2032,11 @@ pub fn c17(thorough: bool, stats: &mut Stats) -> Vec<Failure> {
         // a forced configuration file (2-space indentation), alone and under a command line flag
         ("config-path", vec!["--config-path", "forced/custom.toml"]),
         ("config-path+flag", vec!["--config-path", "forced/custom.toml", "--indent-width", "7", "--quote-style", "ForceSingle"]),
+        // an ignore file with a line the glob parser rejects is nobody's business unless --respect-ignores is given
+        ("bad-ignore-file", vec![]),
+        // the smallest thread counts
+        ("threads=1", vec!["--num-threads", "1"]),
+        ("threads=0", vec!["--num-threads", "0"]),
         // the user-level configuration in $HOME/.config while $XDG_CONFIG_HOME is set and holds nothing
         ("home-config", vec!["--search-parent-directories"]),
         // a positive --glob pattern must not filter the stdin pseudo-file
@@ -2058,8 +2073,15 @@ pub fn c17(thorough: bool, stats: &mut Stats) -> Vec<Failure> {
                     if with_cfg && fname.contains("outside") {
                         continue;
                     }
+                    if *oname == "bad-ignore-file" && fname.contains("+respect") {
+                        continue;
+                    }
                     let mut t = Tree::default();
-                    t.add(".styluaignore", b"ignored.lua\nvendor/*\n!vendor/patched.lua\n");
+                    if *oname == "bad-ignore-file" {
+                        t.add(".styluaignore", b"vendor/[old\n");
+                    } else {
+                        t.add(".styluaignore", b"ignored.lua\nvendor/*\n!vendor/patched.lua\n");
+                    }
                     t.add("src/keep.lua", b"local   untouched  =  1\n");
                     if with_cfg {
                         t.add("stylua.toml", b"indent_type = \"Spaces\"\nindent_width = 2\n");
@@ -2523,6 +2545,22 @@ pub fn c20(_thorough: bool, stats: &mut Stats) -> Vec<Failure> {
             metas.push((desc.clone(), *w, v.cfg, false));
             scs.push(Scenario { desc, tree: t, run: Run { argv: vec!["--color".into(), "Never".into(), arg.into()], cwd: cwd.into(), ..Run::default() } });
         }
+    }
+    // `indent_size = tab` without `tab_width` says nothing by itself and must not swallow the keys behind it
+    for (w, v) in &all {
+        let Some((k, val)) = &v.ec else { continue };
+        if k.contains("indent_size") {
+            continue;
+        }
+        let mut t = Tree::default();
+        t.add("f.lua", probe.as_bytes());
+        t.add(".editorconfig", format!("root = true\n[*.lua]\nindent_size = tab\n{} = {}\n", k, val).as_bytes());
+        let desc = format!("C20 option={} carrier=.editorconfig(behind indent_size=tab) value={:?} width={}", v.opt, format!("{} = {}", k, val), w);
+        if metas.iter().any(|m| m.0 == desc) {
+            continue;
+        }
+        metas.push((desc.clone(), *w, v.cfg, false));
+        scs.push(Scenario { desc, tree: t, run: Run { argv: vec!["--color".into(), "Never".into(), "f.lua".into()], ..Run::default() } });
     }
     // two files of one directory in ONE invocation whose .editorconfig sections differ: each gets its own section
     for (w, v) in &all {
